@@ -247,6 +247,8 @@ type c16Scn struct {
 	sink   chan []byte
 	nsync  int
 	bad    string
+	proto  bool // Protobuf transport (else JSON)
+	garble int  // pushes whose payload was not a publication payload (only possible for a delta subscription)
 	// pushes decoded since the last drain
 	classBits []string
 }
@@ -418,6 +420,7 @@ func (s *c16Scn) connect(protoType ProtocolType) {
 	tr := newTestTransport(func() {})
 	tr.setProtocolVersion(ProtocolVersion2)
 	tr.setProtocolType(protoType)
+	s.proto = protoType == ProtocolTypeProtobuf
 	s.sink = make(chan []byte, 4096)
 	tr.setSink(s.sink)
 	s.tr = tr
@@ -442,6 +445,24 @@ func (s *c16Scn) close() {
 	s.e.mu.Unlock()
 }
 
+// a Protobuf transport message is one encoded Reply
+type c16PbDecoder struct {
+	msg  []byte
+	done bool
+}
+
+func (d *c16PbDecoder) Decode() (*protocol.Reply, error) {
+	if d.done {
+		return nil, io.EOF
+	}
+	d.done = true
+	rep := &protocol.Reply{}
+	if err := rep.UnmarshalVT(d.msg); err != nil {
+		return nil, err
+	}
+	return rep, nil
+}
+
 type c16Got struct {
 	pubs   []*protocol.Publication
 	unsubs []*protocol.Unsubscribe
@@ -461,7 +482,14 @@ func (s *c16Scn) drain() c16Got {
 	for {
 		select {
 		case msg := <-s.sink:
-			dec := protocol.NewJSONReplyDecoder(msg)
+			var dec interface {
+				Decode() (*protocol.Reply, error)
+			}
+			if s.proto {
+				dec = &c16PbDecoder{msg: msg}
+			} else {
+				dec = protocol.NewJSONReplyDecoder(msg)
+			}
 			for {
 				rep, err := dec.Decode()
 				if err != nil {
@@ -544,8 +572,13 @@ func (s *c16Scn) liveStep(positioned, delta bool, publish func() *c16Pub) {
 			if gp.Offset == p.Off {
 				delivered = true
 			}
-		} else if s.idOf(gp.Data, gp.Key, gp.Removed, gp.Offset) == p.ID {
+		} else if id := s.idOf(gp.Data, gp.Key, gp.Removed, gp.Offset); id == p.ID || id == 0 {
+			// id 0: a push for this broadcast reached a subscription that negotiated NO delta, with a
+			// payload in some other encoding; it still is a delivery of the publication
 			delivered = true
+			if id == 0 {
+				s.garble++
+			}
 		} else {
 			s.bad = fmt.Sprintf("unexpected push data %q for publication %d", gp.Data, p.ID)
 		}
@@ -601,7 +634,10 @@ func (s *c16Scn) runStreamLive(variant int) string {
 		s.publishStream(true)
 	}
 	req := &protocol.SubscribeRequest{Channel: s.ch, Tf: s.ctf}
-	if delta {
+	// the client may ask for a delta type the channel does not allow: the subscription then works
+	// WITHOUT delta (what counts is the negotiated SubscribeResult.Delta, not what was requested)
+	refused := !delta && s.r.Intn(2) == 0
+	if delta || refused {
 		req.Delta = string(DeltaTypeFossil)
 	}
 	res, perr, disc := s.subscribeRaw(req)
@@ -609,6 +645,10 @@ func (s *c16Scn) runStreamLive(variant int) string {
 		s.bad = fmt.Sprintf("subscribe failed: %v %v", perr, disc)
 		return "stream-live"
 	}
+	if res.Delta != delta {
+		s.bad = fmt.Sprintf("delta negotiation: allowed=%v negotiated=%v", delta, res.Delta)
+	}
+	delta = res.Delta
 	n := 2 + s.r.Intn(6)
 	for k := 0; k < n; k++ {
 		s.liveStep(positioned, delta, func() *c16Pub { return s.publishStream(history) })
@@ -621,7 +661,11 @@ func (s *c16Scn) runStreamLive(variant int) string {
 			s.liveStep(positioned, delta, func() *c16Pub { return s.publishStream(history) })
 		}
 	}
-	return [...]string{"live-offsetless", "live-unpositioned", "live-positioned", "live-positioned-delta"}[variant]
+	class := [...]string{"live-offsetless", "live-unpositioned", "live-positioned", "live-positioned-delta"}[variant]
+	if refused {
+		class += "+delta-refused"
+	}
+	return class
 }
 
 func (s *c16Scn) refreshStep(isMap bool) {
@@ -727,7 +771,15 @@ func (s *c16Scn) runStreamRecovery(cache bool) string {
 		},
 	}
 	s.e.sb.setHook(s.ch, hook)
-	res, perr, disc := s.subscribeRaw(&protocol.SubscribeRequest{Channel: s.ch, Tf: s.ctf, Recover: true, Offset: cmd, Epoch: reqEpoch})
+	rreq := &protocol.SubscribeRequest{Channel: s.ch, Tf: s.ctf, Recover: true, Offset: cmd, Epoch: reqEpoch}
+	refused := s.r.Intn(3) == 0
+	if refused {
+		rreq.Delta = string(DeltaTypeFossil) // not allowed in this channel: no delta negotiated
+	}
+	res, perr, disc := s.subscribeRaw(rreq)
+	if res != nil && res.Delta {
+		s.bad = "delta negotiated although not allowed"
+	}
 	s.e.sb.mu.Lock()
 	call := s.e.sb.last[s.ch]
 	s.e.sb.mu.Unlock()
@@ -759,6 +811,9 @@ func (s *c16Scn) runStreamRecovery(cache bool) string {
 	}
 	if len(live) > 0 {
 		class += "+buffered"
+	}
+	if refused {
+		class += "+delta-refused"
 	}
 	if disc {
 		return class + "/insufficient"
@@ -863,8 +918,14 @@ func (s *c16Scn) runMap(streamless bool) string {
 	nState, nStream := 0, 0
 	singleRequest := false
 	var liveInj []c16Pub
+	// a client may send its tags filter with the first request of a paginated subscribe only: the node
+	// keeps it for the following pages and for the subscription that goes live
+	tfFirstOnly := s.r.Intn(2) == 0
 	for iter := 0; iter < 40 && s.bad == ""; iter++ {
 		req := &protocol.SubscribeRequest{Channel: s.ch, Type: int32(SubscriptionTypeMap), Phase: phase, Limit: limit, Tf: s.ctf}
+		if !first && tfFirstOnly {
+			req.Tf = nil
+		}
 		if !first {
 			req.Cursor, req.Offset, req.Epoch = cursor, offset, epoch
 		}
@@ -1039,6 +1100,9 @@ func (s *c16Scn) runMap(streamless bool) string {
 	if nState > 1 {
 		class += "+pages"
 	}
+	if nState+nStream > 1 && tfFirstOnly && s.ctf != nil {
+		class += "+tf-first-only"
+	}
 	if nStream > 0 {
 		class += "+stream"
 	}
@@ -1082,7 +1146,11 @@ func TestVerifC16(t *testing.T) {
 		if i%37 == 36 {
 			s.stf, s.ctf = nil, nil
 		}
-		s.connect(ProtocolTypeJSON)
+		if r.Intn(3) == 0 {
+			s.connect(ProtocolTypeProtobuf)
+		} else {
+			s.connect(ProtocolTypeJSON)
+		}
 		var class string
 		kind := i % 10
 		if i >= 10 {
@@ -1115,6 +1183,6 @@ func TestVerifC16(t *testing.T) {
 		}
 		nontrivial = nontrivial && len(s.steps) >= 2
 		term := vApp("mkCase", vList(s.steps))
-		w.Case(i, term, map[string]any{"class": class, "stf": s.stf, "ctf": s.ctf, "steps": s.js}, class, nontrivial)
+		w.Case(i, term, map[string]any{"class": class, "stf": s.stf, "ctf": s.ctf, "protobuf": s.proto, "garbled_pushes": s.garble, "steps": s.js}, class, nontrivial)
 	}
 }
